@@ -241,6 +241,24 @@ ASSUME SatList(<< Cmp(">", V4(D1(1), D1(2), D1(3), alpha(3))) >>, VN(3, 4, 5))
 ASSUME RenderRange(RangeOf(<< AltOf(<< CmpOf(">=", PN(1, 2, 3)), CmpOf("<", PN2(2, 0)) >>), AltOf(<< CmpOf("^", PX1(0)) >>) >>))
          = <<62, 61, 49, 46, 50, 46, 51, 32, 60, 50, 46, 48, 124, 124, 94, 48, 46, 120>>
 
+\* C03 for any number of alternatives, order-free (only evaluated when the observations disagree with the meaning
+\* and no named deviation explains them):
+\*  - a prerelease was admitted although no alternative was written with a tag on its tuple;
+\*  - a prerelease was refused although it lies within the bounds the crate built, and an alternative as written
+\*    both contains it and carries a tag on its tuple ("decided by the bounds alone").
+C03Alts(e, r, O) ==
+  LET tagged(i, v) == \E tg \in Tags(r.alts[i]) : SameTuple(tg, v)
+      within(i, v) == HasValid(r.alts[i]) /\ LET cs == DesugarAlt(r.alts[i]) IN \A j \in 1..Len(cs) : Test(cs[j], v)
+  IN Chk(\A k \in Idx(O) : (IsPre(O[k].v) /\ O[k].r) => \E i \in 1..Len(r.alts) : tagged(i, O[k].v),
+         "C03:admitted-without-written-tag")
+     \cup Chk(\A k \in Idx(O) : (IsPre(O[k].v) /\ ~O[k].r /\ RInB(e.val, O[k].v))
+                                   => ~\E i \in 1..Len(r.alts) : within(i, O[k].v) /\ tagged(i, O[k].v),
+               "C03:refused-despite-written-tag")
+     \* the same against the bounds as written (a tag dropped from a bound shows up here, whatever bounds were built)
+     \cup Chk(\A k \in Idx(O) : (IsPre(O[k].v) /\ ~O[k].r)
+                                   => ~\E i \in 1..Len(r.alts) : within(i, O[k].v) /\ tagged(i, O[k].v),
+               "C03:refused-within-written-bounds")
+
 \* ---------------------------------------------------------------- Range::parse postcondition
 \* clauses that need the syntax tree r of the text (given with the case, or computed by RangeText.tla)
 JRParseAst(e, r) ==
@@ -255,7 +273,7 @@ JRParseAst(e, r) ==
           ELSE \* does the specification with some named deviation(s) reproduce every observation?
                LET devs == {S \in (SUBSET KnownDeviations) \ {{}} : \A k \in Idx(O) : O[k].r = MeansD(r, O[k].v, S)}
                    least == {S \in devs : \A T \in devs : Cardinality(S) <= Cardinality(T)} IN
-               IF devs = {} THEN {"C01:satisfies"} ELSE {"C01:satisfies@" \o DevName(S) : S \in least})
+               IF devs = {} THEN {"C01:satisfies"} \cup C03Alts(e, r, O) ELSE {"C01:satisfies@" \o DevName(S) : S \in least})
     \cup Chk(\A k \in Idx(O) : O[k].vr = O[k].r, "C01:version-satisfies-agrees")
     \cup Chk(~NoValid(r), "C01:accepted-without-valid-comparator")
     \cup (IF Len(r.alts) = 1 /\ Len(e.val) <= 1 THEN
